@@ -206,11 +206,14 @@ def read_cgsmiles(pattern):
             # eon => end of next
             # we find the next character that starts a new residue, ends
             # a branch or ends the complete pattern
-            eon = _find_next_character(pattern, ['[', ')', '(', '}'], stop)
+            eon = _find_next_character(pattern, ['[', ')', '(', '}'] + list(symbol_to_order.keys()), stop)
             # between the expansion character and the eon character
             # is any number that corresponds to the number of times
             # (i.e. monomers) that this atom should be added
             n_mon = int(pattern[stop+1:eon])
+            # a bond order symbol may follow the expansion number
+            if eon < len(pattern) and pattern[eon] in symbol_to_order:
+                bond_order = symbol_to_order[pattern[eon]]
         else:
             n_mon = 1
 
@@ -227,13 +230,15 @@ def read_cgsmiles(pattern):
             recipes[branch_anchor[-1]].append((n_mon, attributes, prev_bond_order))
         # new we add new residue as often as required
         connection = []
-        for _ in range(0, n_mon):
+        for idx in range(0, n_mon):
             mol_graph.add_node(current, **attributes)
 
             if prev_node is not None:
                 mol_graph.add_edge(prev_node, current, order=prev_bond_order)
 
-            prev_bond_order = bond_order
+            # copies of an expanded node are joined by single bonds; the
+            # bond order symbol applies to the bond leaving the last copy
+            prev_bond_order = bond_order if idx == n_mon - 1 else default_bond_order
 
             # here we have a double edge
             for cycle_edge in cycle_edges:
